@@ -106,6 +106,28 @@ fn extreme_ints(len: i64) -> Vec<BigInt> {
 }
 
 const STR_U_QUICK: &[&str] = &["é", "aé", "éa", "€", "𝄞", "éé", "a€", "€a"];
+/// boundary-byte pool: strings whose UTF-8 contains the boundary continuation bytes 0x80 / 0xBF,
+/// their neighbours 0x7F / 0x81 / 0xBE, and the boundary lead bytes C2, DF, E0, EF, F0, F4 (and ED/EE
+/// around the surrogate gap); every one is indexed at EVERY byte position by every access form
+const STR_BOUNDARY: &[&str] = &[
+    "\u{7f}",            // 7F
+    "\u{80}",            // C2 80
+    "\u{bf}",            // C2 BF
+    "\u{c0}",            // C3 80   (À)
+    "\u{100}",           // C4 80   (Ā)
+    "\u{101}",           // C4 81
+    "a\u{7ff}",          // 61 DF BF
+    "\u{800}",           // E0 A0 80
+    "\u{1000}z",         // E1 80 80 7A
+    "\u{d7ff}",          // ED 9F BF
+    "\u{e000}",          // EE 80 80
+    "\u{ffff}",          // EF BF BF
+    "\u{10000}",         // F0 90 80 80
+    "\u{3ffff}",         // F0 BF BF BF
+    "\u{40000}",         // F1 80 80 80
+    "\u{10ffff}",        // F4 8F BF BF
+    "\u{7f}\u{c0}\u{be}",  // 7F C3 80 C2 BE
+];
 const STR_U_MORE: &[&str] = &["é€", "a𝄞", "𝄞a", "aéb", "€€", "é𝄞é", "𝄞𝄞", "ab€cd", "xyé"];
 
 fn finite_seqs(interp: &Interp, max_len: i64, thorough: bool, notes: &mut Vec<String>) -> Vec<SeqV> {
@@ -136,7 +158,7 @@ fn finite_seqs(interp: &Interp, max_len: i64, thorough: bool, notes: &mut Vec<St
         raw.push(("rangestep", format!("(5 til {} by 2)", 5 + 2 * n), true));
         raw.push(("lazymap", format!("lazy_map(1 to {}, \\x -> x * 10)", n), true));
     }
-    for s in STR_U_QUICK {
+    for s in STR_U_QUICK.iter().chain(STR_BOUNDARY.iter()) {
         raw.push(("strU", format!("\"{}\"", s), false));
     }
     if thorough {
@@ -313,9 +335,9 @@ fn gen_for_seq(cases: &mut Vec<Case>, s: &SeqV, rng: &mut Rng, slice_extra_forms
         for (form, src) in idx_forms(s, i) {
             push(cases, "idx", form, s, cls, src, req.clone(), !(cls == "inrange" && form == "expr"));
         }
-        for name in ["!!", "index", "!?", "!%"] {
-            let src = if name == "index" {
-                format!("index({}, {})", s.src, i.src)
+        for name in ["!!", "index", "!?", "!%", "index?"] {
+            let src = if name == "index" || name == "index?" {
+                format!("{}({}, {})", name, s.src, i.src)
             } else {
                 format!("{} {} {}", s.src, name, i.osrc)
             };
